@@ -10,7 +10,7 @@ import time
 import contextlib
 
 
-class CaseTimeout(Exception):
+class CaseTimeout(BaseException):
     pass
 
 
